@@ -359,6 +359,21 @@ def run(ctx):
                     if ncli < (2 if ctx.quick else 12) and phase == 0:
                         ncli += 1
                         cli_roundtrip(ctx, msg.bytes, dict(spec, cli=True), scratch, 's%d' % n)
+        # same layout, different owners (consecutive uncompressed subsets with equal descriptors, different bitmaps)
+        for nsub in (2, 3):
+            for name, msg in cases.same_layout_cases(rng, nsub=nsub):
+                n += 1
+                if not ctx.mine(n):
+                    continue
+                try:
+                    m = dec.process(msg.bytes)
+                except Exception:
+                    ctx.count('decode_raises')
+                    continue
+                ctx.add('shapes', name)
+                ctx.count('same_layout_cases')
+                check_message(ctx, m, enc, dict(origin='shape', shape=name, ids=msg.ids, compressed=False, nsub=nsub, hex=msg.bytes.hex()),
+                              'u', msg.ids)
         # corpus
         files = corpus_files()
         if ctx.quick:
